@@ -1,3 +1,17 @@
 -- Root of the library: everything (models, specifications, proofs, property theorems).
 -- `lake build Mdsort` (the setup command) therefore checks every proof; a check rebuilds only `Mdsort.Props.Cxx` and the driver.
 import Mdsort.All
+import Mdsort.Proofs.GenBridge
+-- proof modules no property file needs to name itself are listed here so that the root really is "everything"
+import Mdsort.Spec.ConfDefect
+import Mdsort.Proofs.ConfWpl
+import Mdsort.Proofs.ConfAnywhere1
+import Mdsort.Proofs.ConfAnywhere2
+import Mdsort.Proofs.ConfAnywhere3
+import Mdsort.Proofs.ConfAnywhere4
+import Mdsort.Proofs.ConfAnywhere5
+import Mdsort.Proofs.ConfAnywhere6
+import Mdsort.Proofs.ConfAnywhere7
+import Mdsort.Model.Strptime
+import Mdsort.Spec.Rfc5322Date
+import Mdsort.Proofs.Strptime
